@@ -13,7 +13,7 @@ EXPLANATION = ('C02 is mostly a liveness statement, which no static argument in 
                'scheduling (or reports need_scheduling to a caller that does).')
 NOT_DECIDED = ['"runnable work eventually runs": fairness of scheduler_loop, solver progress, blocked requests eventually re-enabled (liveness over runtime quantities)',
                'that every closed job completes (follows from the above plus C13 R13.2)']
-RELATED = {'C13': ['R13.2'], 'C03': ['R03.1', 'R03.2'], 'C05': ['R05.5']}
+RELATED = {'C13': ['R13.2'], 'C03': ['R03.1', 'R03.2'], 'C05': ['R05.5'], 'C04': ['R04.2']}
 ASSUMPTIONS = []
 SUB = HQ + 'client::submit::'
 INTARRAY = 'hyperqueue::common::arraydef::IntArray::'
@@ -52,6 +52,16 @@ def run(ctx):
         ok, wit = must_pass(orw, entries, sites, exits=[h] + list(orw.returns()))
         what = 'assigned' if any(x in qadd for x in sites) else 'prefilled'
         ctx.ob('R02.5', f'on_remove_worker|{what} tasks requeued', ok, f'every {what} task of the lost worker is put back into the ready queue in its iteration (a `continue` before the re-queue loses the task)', orw.loc(sites[0]))
+    ctx.rule('R02.7', 'dependencies handed to the core are duplicate-free (on_new_tasks counts every listed dependency but registers a consumer once per distinct dependency: a duplicate leaves the counter above zero forever)')
+    btg = [prog.bodies[p_] for p_ in prog.with_closures(SUB + 'build_tasks_graph')]
+    dedup = False
+    for b_ in btg:
+        for l_ in range(len(b_.locals)):
+            ty_ = b_.locals[l_][0]
+            if ('data_structures::Set<' in ty_ or 'HashSet<' in ty_ or 'BTreeSet<' in ty_) and 'JobTaskId' in ty_ and 'TaskId' in ty_:
+                dedup = True
+    ont_ = prog.body(REACTOR + 'on_new_tasks')
+    ctx.ob('R02.7', 'build_tasks_graph|dependency ids pass through a set', dedup, 'build_tasks_graph collects the dependency ids of a task through a set before they become task_deps', btg[0].loc())
     # ---- R02.1
     sites = [(o, b, bi) for o, b, bi in call_sites(prog, INTARRAY + 'from_range') if o.startswith(HQ) and not is_test_util(o)]
     ctx.floor('R02.1', len(sites), 1, 'from_range call sites')
